@@ -4,7 +4,7 @@ use crate::common::*;
 
 pub fn run(ctx: &Ctx) -> Outcome {
     let mut out = Outcome::default();
-    let d = ctx.tier.pick(9, 11);
+    let d = ctx.tier.pick(9, 12);
     run_and_report(ctx, &rx(ctx.tier, 2, vec![MSS], d), &mut out);
     run_and_report(ctx, &rx(ctx.tier, 4, vec![MSS, 1], d), &mut out);
     if ctx.tier == Tier::Thorough {
